@@ -16,16 +16,12 @@ Definition c12_known_ladder : list string := [].
 (** C13: hand-rolled comma loops that ignore the trailing_commas option (confirmed by a witness
     on every run; key = file:fn/comma_loop/Token::Comma#ordinal). *)
 Definition c13_known_loops : list string := [
-  "dialect/snowflake:parse_copy_into/comma_loop/Token::Comma#0";
   "dialect/snowflake:parse_select_items_for_data_load/comma_loop/Token::Comma#0";
-  "parser/mod:parse_attach_duckdb_database_options/comma_loop/Token::Comma#0";
   "parser/mod:parse_struct_type_def/comma_loop/Token::Comma#0";
   "parser/mod:parse_click_house_tuple_def/comma_loop/Token::Comma#0";
   "parser/mod:parse_mssql_declare/comma_loop/Token::Comma#0";
-  "parser/mod:parse_string_values/comma_loop/Token::Comma#0";
   "parser/mod:parse_set/comma_loop/Token::Comma#0";
-  "parser/mod:parse_transaction_modes/comma_loop/Token::Comma#0";
-  "parser/mod:parse_execute/comma_loop/Token::Comma#0"
+  "parser/mod:parse_transaction_modes/comma_loop/Token::Comma#0"
 ].
 
 (** C13: hand-rolled loops reviewed as harmless: they honour the option by hand (probed:
@@ -45,8 +41,6 @@ Definition c13_reviewed_loops : list string := [
 (** C13: list contexts (word before the bracket / clause keyword) in which the sampler sees the
     known loops reject a trailing comma. *)
 Definition c13_known_ctx : list string := [
-  "tc:insert:ENUM(";
-  "tc:insert:SET(";
   "tc:insert:SET";
   "tc:insert:SET:("
 ].
